@@ -168,6 +168,10 @@ NEEDS = {
     "C17-r4-2": "a partial read that leaves events pending, then enough writes to overflow (reader-side batch invisible to the capacity check)",
     "C18-r4-1": "step_until ending on the no-more-events branch with a concurrent schedule call during the final sync (sync before the time write, lock dropped)",
     "C18-r4-2": "a tolerated lag followed by events scheduled within that lag (catch-up fast path skips the clock)",
+    "C19-r4-1": "Output/Requestor with >= 2 connections, NoRecipient on one of them while another sender future is unpolled or pending, then the failed simulation dropped (futures released only on the success paths)",
+    "C19-r4-2": "single-threaded executor, a failed run leaving a task queued, another model blocked on that model's full mailbox (run queue cleared in Drop under a mutable borrow)",
+    "C20-r4-1": "insert, extract that newest entry, insert again, extract with the old key (next_epoch rolled back in extract)",
+    "C20-r4-2": ">= 3 inserts, pulls leaving exactly one item, then an insert with that item's key (next_epoch reset when len <= 1)",
     "C19-2": "output with >= 2 connections, a full target mailbox, simulation dropped while the broadcast is pending (ManuallyDrop not released)",
 }
 
